@@ -2,9 +2,11 @@
    All statements are over an arbitrary commutative ring (A, zero, one, add, mul, sub, opp) and
    hold for any number of nodes and branches, parallel branches and self loops included.
    The model (Model.v) is tied to /repo by exact correspondences evaluated inside Coq on every run. *)
-From Coq Require Import ZArith List Bool Arith Ring Lia.
-From PP Require Import C01.Model C01.Proofs C01.Corr.
+From Coq Require Import ZArith QArith List Bool Arith Ring Lia Field.
+From PP Require Import C01.Model C01.Proofs C01.Corr C06.ModelExtract C01.ProofsExtract.
 Import ListNotations.
+Close Scope Q_scope.
+Open Scope nat_scope.
 
 (* 1. the Jacobian row and right-hand side of every non-slack node are exactly the nodal balance *)
 Theorem node_row_shape :
@@ -85,6 +87,69 @@ Theorem load_aggregation :
 Proof. exact @load_aggregation_lemma. Qed.
 Print Assumptions load_aggregation.
 
+(* 6. reported values.  ExtGrid.extract_results: the flows reported for the in-service p/pt ext grids on node i add
+      up to the slack mass of node i (even split; [div] must invert the multiplication by the count - true in a field
+      whenever at least one such ext grid exists); rows that are out of service or of type t never get a value *)
+Theorem ext_grid_share :
+  forall (A : Type) (zero one : A) (add mul sub : A -> A -> A) (opp : A -> A),
+  ring_theory zero one add mul sub opp eq ->
+  forall (div : A -> A -> A) (pos : Z -> nat) (rows : list eg_row) (msl : list A) (i : nat),
+  (forall a, mul (div a (eg_count zero one add pos i rows)) (eg_count zero one add pos i rows) = a) ->
+  sumlist zero add (map (eg_value zero one add div pos rows msl) (eg_at pos i rows)) = nth i msl zero.
+Proof. exact @extgrid_share_lemma. Qed.
+Print Assumptions ext_grid_share.
+
+Theorem ext_grid_rows :
+  forall (A : Type) (zero one : A) (add : A -> A -> A) (div : A -> A -> A) (pos : Z -> nat) (rows : list eg_row)
+         (msl : list A) (old : list (option A)) (k : nat) (r : eg_row),
+  length old = length rows -> nth_error rows k = Some r ->
+  nth_error (extgrid_results zero one add div pos rows msl old) k =
+  Some (if eg_active r then Some (eg_value zero one add div pos rows msl r) else nth k old None).
+Proof. intros A zero one add. exact (@extgrid_rows_lemma A zero one add). Qed.
+Print Assumptions ext_grid_rows.
+
+(* 7. ConstFlow.extract_results: a row reports mdot * scaling iff it is in service and its junction is supplied
+      (otherwise the NaN of init_results stays), and what the pit aggregated into LOAD_i (theorem 5) is exactly
+      sign * (sum of the values reported by the in-service rows at node i) *)
+Theorem constflow_results_rows :
+  forall (A : Type) (mul : A -> A -> A) (supplied : Z -> bool) (rows : list (@cf_row A)) (old : list (option A))
+         (k : nat) (r : @cf_row A),
+  length old = length rows -> nth_error rows k = Some r ->
+  nth_error (constflow_results mul supplied rows old) k =
+  Some (if cf_in_service r && supplied (cf_junction r) then Some (mul (cf_mdot r) (cf_scaling r)) else nth k old None).
+Proof. intros A mul. exact (@constflow_rows_lemma A mul). Qed.
+Print Assumptions constflow_results_rows.
+
+Theorem reported_loads_are_LOAD :
+  forall (A : Type) (zero one : A) (add mul sub : A -> A -> A) (opp : A -> A),
+  ring_theory zero one add mul sub opp eq ->
+  forall (sign : A) (pos : Z -> nat) (rows : list (@cf_row A)) (i : nat),
+  sumlist zero add (map (cf_value zero one mul sign) (filter (fun r => Nat.eqb (pos (cf_junction r)) i) rows)) =
+  mul sign (sumlist zero add (map (reported_or_zero zero mul) (filter (fun r => Nat.eqb (pos (cf_junction r)) i) rows))).
+Proof. exact @constflow_reported_lemma. Qed.
+Print Assumptions reported_loads_are_LOAD.
+
+(* 8. extract_mdot_signs: for a branch table with internal sections (pipes; secs = sections per row, in table order)
+      the placement of C06 applied to mf_from = MDOTINIT and mf_to = - MDOTINIT (get_basic_branch_results, T-tie in
+      PropsT.basic_results_mdot) gives every row r whose end section is connected
+         mdot_from_r = m of its FIRST section,   mdot_to_r = - m of its LAST section
+      and leaves the initial NaN (old) otherwise - for any number of rows and sections *)
+Theorem extract_mdot_signs :
+  forall (A : Type) (zero : A) (opp : A -> A) (secs : list nat) (conn : list bool) (ms old_from old_to : list A),
+  (forall s, In s secs -> 0 < s) ->
+  length conn = fold_right plus 0 secs -> length ms = fold_right plus 0 secs ->
+  length old_from = length secs -> length old_to = length secs ->
+  exists rows_from rows_to,
+    place_ext conn (blocks_mask (first_blocks secs)) (branch_mf_from ms) old_from = Some rows_from /\
+    place_ext conn (blocks_mask (last_blocks secs)) (branch_mf_to opp ms) old_to = Some rows_to /\
+    forall r s, nth_error secs r = Some s ->
+      let first := nth r (pos_of_blocks 0 (first_blocks secs)) 0 in
+      let last := nth r (pos_of_blocks 0 (last_blocks secs)) 0 in
+      nth_error rows_from r = Some (if nth first conn false then nth first ms zero else nth r old_from zero) /\
+      nth_error rows_to r = Some (if nth last conn false then opp (nth last ms zero) else nth r old_to zero).
+Proof. exact @extract_mdot_signs_lemma. Qed.
+Print Assumptions extract_mdot_signs.
+
 (* ---------------------------------------------------------------- non-vacuity: a meshed net with two parallel
    branches, a self loop and two slack nodes; x is a solution of its assembled system at Z *)
 Definition ex_nodes : list (@node Z) :=
@@ -124,3 +189,27 @@ Example example_load_aggregation :
   constflow_entries 0%Z 1%Z Z.add Z.mul (-1)%Z (zassoc [(100005%Z, 2); (7%Z, 0); (3%Z, 1)] 9)
     [cf 100005 4 2 true; cf 3 5 1 true; cf 100005 1 3 true; cf 7 6 1 false] [10; 20; 30]%Z = [10; 15; 19]%Z.
 Proof. vm_compute. reflexivity. Qed.
+
+(* ext-grid share on a concrete table at Q: three ext grids on junction 7 (one out of service, one of type t is not
+   counted), slack mass 120 -> the two active ones report 60 each; the div hypothesis of theorem 6 holds (count = 2) *)
+Example example_ext_grid_share :
+  extgrid_results 0%Q 1%Q Qplus Qdiv (zassoc [(7%Z, 1); (3%Z, 0)] 9)
+    [eg 7 true true; eg 7 true false; eg 3 true true; eg 7 false true; eg 7 true true] [30; 120]%Q
+    [None; None; None; None; None]
+  = [Some (Qdiv 120 (1 + (1 + 0))); None; Some (Qdiv 30 (1 + 0)); None; Some (Qdiv 120 (1 + (1 + 0)))]%Q
+  /\ (forall a : Q, Qeq (Qmult (Qdiv a (1 + (1 + 0))) (1 + (1 + 0))) a).
+Proof. split; [vm_compute; reflexivity|]. intros a. field. Qed.
+
+Example example_constflow_results :
+  constflow_results Z.mul (fun l => existsb (Z.eqb l) [3; 100005]%Z)
+    [cf 100005 4 2 true; cf 3 5 1 false; cf 8 1 3 true] [None; None; None] = [Some 8%Z; None; None].
+Proof. vm_compute. reflexivity. Qed.
+
+(* three pipes with 1 / 3 / 2 sections, the last pipe disconnected: from-values are the first, to-values minus the last
+   section flows of each connected row *)
+Example example_mdot_signs :
+  place_ext [true; true; true; true; false; false] (blocks_mask (first_blocks [1; 3; 2]))
+            (branch_mf_from [5; 7; 7; 7; 2; 2]%Z) [0; 0; 0]%Z = Some [5; 7; 0]%Z /\
+  place_ext [true; true; true; true; false; false] (blocks_mask (last_blocks [1; 3; 2]))
+            (branch_mf_to Z.opp [5; 7; 8; 9; 2; 3]%Z) [0; 0; 0]%Z = Some [-5; -9; 0]%Z.
+Proof. vm_compute. split; reflexivity. Qed.
